@@ -211,7 +211,14 @@ func isUntyped(pkg *Package, typ types.Type) bool {
 }
 
 func toChanType(pkg *Package, t *types.Chan) ast.Expr {
-	return &ast.ChanType{Value: toType(pkg, t.Elem()), Dir: chanDirs[t.Dir()]}
+	elem := toType(pkg, t.Elem())
+	if t.Dir() == types.SendRecv {
+		// chan (<-chan T) needs parentheses: "chan <-chan T" reads as chan<- (chan T)
+		if c, ok := t.Elem().(*types.Chan); ok && c.Dir() == types.RecvOnly {
+			elem = &ast.ParenExpr{X: elem}
+		}
+	}
+	return &ast.ChanType{Value: elem, Dir: chanDirs[t.Dir()]}
 }
 
 var (
